@@ -50,11 +50,12 @@ variable {α : Type} [Field α] [LinearOrder α] [IsStrictOrderedRing α]
 def sep2 (p q : Pt α) : α := (q.x - p.x) ^ 2 + (q.y - p.y) ^ 2
 
 /-- `PixCoord.rotate(center, angle)`: `center + R(θ)·(self − center)` with
-`R = [[cos, −sin], [sin, cos]]`. -/
+`R = [[cos, −sin], [sin, cos]]`, applied element-wise as the code does:
+`x = center.x + (cosa*dx − sina*dy)`, `y = center.y + (sina*dx + cosa*dy)`. -/
 def Pt.rotate (p center : Pt α) (d : Dir α) : Pt α :=
   let dx := p.x - center.x
   let dy := p.y - center.y
-  ⟨center.x + (d.c * dx + -d.s * dy), center.y + (d.s * dx + d.c * dy)⟩
+  ⟨center.x + (d.c * dx - d.s * dy), center.y + (d.s * dx + d.c * dy)⟩
 
 /-- `angle + other` on the level of `(cos, sin)`: the angle-addition formulas. -/
 def Dir.add (a b : Dir α) : Dir α := ⟨a.c * b.c - a.s * b.s, a.s * b.c + a.c * b.s⟩
